@@ -1228,6 +1228,43 @@ class ApplyInductHyp(Rule):
         return e
 
 
+def is_monotonic_on(dfx: Expr, var: str, lower: Expr, upper: Expr) -> bool:
+    """Return False if the derivative dfx (in variable var) takes both signs at
+    sample points strictly between lower and upper. Returns True when no change
+    of sign is found or the expressions cannot be evaluated.
+
+    """
+    if not (lower.is_evaluable() and upper.is_evaluable()):
+        return True
+    try:
+        a, b = float(expr.eval_expr(lower)), float(expr.eval_expr(upper))
+    except (ZeroDivisionError, ValueError, OverflowError, TypeError, NotImplementedError):
+        return True
+    if a > b:
+        a, b = b, a
+    if a == float('-inf') and b == float('inf'):
+        pts = [-100.0, -10.0, -1.0, -0.1, 0.1, 1.0, 10.0, 100.0]
+    elif a == float('-inf'):
+        pts = [b - d for d in (0.01, 0.1, 1.0, 10.0, 100.0)]
+    elif b == float('inf'):
+        pts = [a + d for d in (0.01, 0.1, 1.0, 10.0, 100.0)]
+    else:
+        pts = [a + (b - a) * k / 16 for k in range(1, 16)]
+    signs = set()
+    for pt in pts:
+        try:
+            val = expr.eval_expr(dfx.subst(var, Const(Fraction(pt).limit_denominator(10 ** 6))))
+        except (ZeroDivisionError, ValueError, OverflowError, TypeError, NotImplementedError, AssertionError):
+            continue
+        if isinstance(val, complex):
+            continue
+        if val > 1e-9:
+            signs.add(1)
+        elif val < -1e-9:
+            signs.add(-1)
+    return len(signs) < 2
+
+
 class Substitution(Rule):
     """Apply substitution u = g(x).
 
@@ -1292,6 +1329,8 @@ class Substitution(Rule):
             raise AssertionError("Substitution: variable not found")
 
         dfx = deriv(e.var, var_subst, ctx)
+        if e.is_integral() and not is_monotonic_on(dfx, e.var, e.lower, e.upper):
+            raise AssertionError("Substitution: %s is not monotonic on the interval of integration" % var_subst)
         ctx2 = Context(ctx)
         if e.is_integral():
             ctx2.add_condition(expr.Op(">", Var(e.var), e.lower))
